@@ -211,9 +211,9 @@ func InstrIndex(in ssa.Instruction) int {
 	return -1
 }
 
-// Dominates reports whether instruction a dominates instruction b (a is
-// executed before b on every path from the entry to b).
-func Dominates(a, b ssa.Instruction) bool {
+// dominatesLocal reports whether instruction a dominates instruction b (a is
+// executed before b on every path from the entry to b) within one function.
+func dominatesLocal(a, b ssa.Instruction) bool {
 	if a.Parent() != b.Parent() {
 		return false
 	}
@@ -257,6 +257,10 @@ func ConstBool(v ssa.Value) (bool, bool) {
 // Strip looks through value-preserving conversions.
 func Strip(v ssa.Value) ssa.Value {
 	for {
+		if r := Resolve(v); r != v {
+			v = r
+			continue
+		}
 		switch x := v.(type) {
 		case *ssa.ChangeType:
 			v = x.X
@@ -275,6 +279,11 @@ func Strip(v ssa.Value) ssa.Value {
 // LoadedField: if v is a load (or Field) of struct field, returns the owner
 // name "T.f", the base pointer/struct value, and true.
 func LoadedField(v ssa.Value) (owner string, base ssa.Value, fv *types.Var, ok bool) {
+	return LoadedFieldRaw(Resolve(v))
+}
+
+// LoadedFieldRaw is LoadedField without looking through helpers.
+func LoadedFieldRaw(v ssa.Value) (owner string, base ssa.Value, fv *types.Var, ok bool) {
 	switch x := v.(type) {
 	case *ssa.UnOp:
 		if x.Op == token.MUL {
